@@ -76,6 +76,8 @@ func Gen(t *rapid.T, backend sim.Backend, nClients int, opts ...Options) (keys [
 				b.Async, b.OnePC = true, true
 			}
 			b.Causal = rapid.IntRange(0, 4).Draw(t, "causal") == 0
+			b.SchemaFail = rapid.IntRange(0, 9).Draw(t, "schemafail") == 0
+			b.AssertLevel = rapid.SampledFrom([]int{0, 0, 1, 2, 2}).Draw(t, "assertlevel")
 		}
 		seq := []*sim.Step{b}
 		// unistore answers the prewrite of a not-pessimistically-locked key that still carries the txn's own
@@ -85,6 +87,7 @@ func Gen(t *rapid.T, backend sim.Backend, nClients int, opts ...Options) (keys [
 		// either in its unlocked set (written without lock, never locked) or always locked first.
 		unlocked := map[string]bool{}
 		insertedKeys := map[string]bool{}
+		var writtenKeys []string // keys written so far by this transaction, in order
 		if pess && backend == sim.Uni {
 			unlocked = uniUnlocked // the same classes for every transaction of the case (see below)
 		}
@@ -108,6 +111,9 @@ func Gen(t *rapid.T, backend sim.Backend, nClients int, opts ...Options) (keys [
 			// Lock record): no lock-only keys there (no bare lock calls, no pessimistic insert-then-delete)
 			if pess && backend != sim.Uni {
 				ops = append(ops, "lock", "lock")
+			}
+			if !pess {
+				ops = append(ops, "insert", "lock") // optimistic LockKeys: on unistore only for keys the transaction wrote (no lock-only keys there)
 			}
 			if pess && o.Aggressive && backend == sim.Uni {
 				ops = append(ops, "aggr-start", "aggr-start")
@@ -134,6 +140,18 @@ func Gen(t *rapid.T, backend sim.Backend, nClients int, opts ...Options) (keys [
 				s.Keys = []string{key("k")}
 				if s.Op != "delete" {
 					s.Val = fmt.Sprintf("v%d.%d", i, j)
+				}
+				// assertion flags as a statement would put them (right or wrong: a refused assertion is a definite
+				// commit failure); drawn also when the level is off, where they must not reach the wire
+				switch rapid.IntRange(0, 5).Draw(t, "assert") {
+				case 0:
+					s.Assert = "exist"
+				case 1:
+					s.Assert = "notexist"
+				case 2:
+					if s.Op == "insert" {
+						s.Assert = "notexist"
+					}
 				}
 				if pess && backend == sim.Uni {
 					if unlocked[s.Keys[0]] && s.Op == "insert" {
@@ -174,7 +192,11 @@ func Gen(t *rapid.T, backend sim.Backend, nClients int, opts ...Options) (keys [
 			case "lock":
 				n := rapid.IntRange(1, 2).Draw(t, "n")
 				for x := 0; x < n; x++ {
-					if k, ok := lockable("k"); ok {
+					if !pess && backend == sim.Uni {
+						if len(writtenKeys) > 0 {
+							s.Keys = append(s.Keys, rapid.SampledFrom(writtenKeys).Draw(t, "k"))
+						}
+					} else if k, ok := lockable("k"); ok {
 						s.Keys = append(s.Keys, k)
 					}
 				}
@@ -195,6 +217,17 @@ func Gen(t *rapid.T, backend sim.Backend, nClients int, opts ...Options) (keys [
 				}
 			}
 			seq = append(seq, s)
+			if s.Op == "set" || s.Op == "insert" || s.Op == "delete" {
+				writtenKeys = append(writtenKeys, s.Keys[0])
+			}
+			if s.Op == "insert" && !pess && rapid.IntRange(0, 2).Draw(t, "insert-lock") == 0 {
+				// the statement shapes around an optimistic insert: the inserted key is locked (select for update) and
+				// possibly deleted again within the transaction
+				seq = append(seq, &sim.Step{Txn: i, Op: "lock", Keys: []string{s.Keys[0]}})
+				if rapid.Bool().Draw(t, "insert-lock-delete") {
+					seq = append(seq, &sim.Step{Txn: i, Op: "delete", Keys: []string{s.Keys[0]}})
+				}
+			}
 			if s.Op == "aggr-start" {
 				// a whole statement: 1-3 attempts of 1-2 lock calls over a small key set with varying options, ended by
 				// Done or Cancel (the single aggr-* ops above still produce the irregular sequences)
@@ -261,6 +294,19 @@ func Gen(t *rapid.T, backend sim.Backend, nClients int, opts ...Options) (keys [
 		}
 		seq = append(seq, end)
 		perTxn[i] = seq
+	}
+	// initial data: a set-up transaction (id nTxn) commits values on some keys before anything else runs, so that inserts
+	// meet existing keys, deletes delete something and reads see an older version
+	if rapid.IntRange(0, 2).Draw(t, "preload") != 0 {
+		pre := []*sim.Step{{Txn: nTxn, Op: "begin", Client: 0}}
+		for _, k := range keys {
+			if rapid.Bool().Draw(t, "preloadkey") {
+				pre = append(pre, &sim.Step{Txn: nTxn, Op: "set", Keys: []string{k}, Val: "init." + k})
+			}
+		}
+		if len(pre) > 1 {
+			steps = append(steps, append(pre, &sim.Step{Txn: nTxn, Op: "commit"})...)
+		}
 	}
 	// interleave
 	idx := make([]int, nTxn)
